@@ -36,6 +36,7 @@ structure Sig where
   recv : Recv
   outs : List Origin
   selfSealed : Bool     -- the Self type has only private fields (can only be obtained through constructors)
+  exclOut : Bool := false   -- the result gives exclusive access: it contains a `&mut`, or is one of the `*IterMut` types
 deriving Repr
 
 /-- a single output lifetime is bound to the borrow of the cache -/
@@ -47,8 +48,14 @@ def Origin.tiedTo (o : Origin) (recv : Recv) (selfSealed : Bool) : Bool :=
   | .fnParam => false
   | .static => false
 
-/-- every lifetime handed out is tied to the receiver's borrow (or carried by a sealed borrowed handle) -/
-def tied (s : Sig) : Bool := s.outs.all (fun o => o.tiedTo s.recv s.selfSealed)
+/-- exclusive access may only be handed out against an exclusive borrow: `&mut self`, or `self` where `Self = &mut RawLRU`
+    (`IntoIterator for &mut RawLRU`). A `&self` method returning `&mut V` would let safe code hold two live `&mut V`. -/
+def exclOk (s : Sig) : Bool :=
+  !s.exclOut || s.recv = .refMut || (s.recv = .value && s.ty = .refMutRawLRU)
+
+/-- every lifetime handed out is tied to the receiver's borrow (or carried by a sealed borrowed handle), and exclusive
+    access only comes out of an exclusive borrow -/
+def tied (s : Sig) : Bool := s.outs.all (fun o => o.tiedTo s.recv s.selfSealed) && exclOk s
 
 inductive Marker | send | sync
 deriving Repr, DecidableEq
